@@ -29,11 +29,16 @@ def weights(sr):
     return [16 * prod // (a * a) for a in sr], prod
 
 
+def scale_of(inp):
+    return 2.0 ** inp.get("scale_pow", 0)
+
+
 def search_range_arg(inp):
     sr = inp["sr"]
+    f = scale_of(inp)
     if inp.get("iso", True):
-        return sr[0] / 4.0
-    return tuple(a / 4.0 for a in sr)
+        return sr[0] / 4.0 * f
+    return tuple(a / 4.0 * f for a in sr)
 
 
 def gen_movie(rng, thorough=False, plant_history=False, dense=False):
@@ -102,7 +107,25 @@ def gen_movie(rng, thorough=False, plant_history=False, dense=False):
             pts.append(list(rng.choice(pts)))                # exact duplicate position
         rng.shuffle(pts)
         frames.append(pts)
+    if npart <= 12 and nfr >= 2 and memory == 0 and rng.random() < 0.15:
+        # a crowded level followed by a nearly empty one: 9-11 features within range of one spot
+        # (exactly MAX_NEIGHBORS = 10 candidate sources is still inside C02's quantifier)
+        k = rng.randrange(0, nfr - 1)
+        c = [rng.randrange(side) for _ in range(dim)]
+        rad = max(1, int(min(sr) / 4.0 / (dim ** 0.5)) - 1) if min(sr) >= 8 else 1
+        crowd = []
+        for _ in range(rng.choice([9, 10, 10, 10, 11])):
+            crowd.append([ci + rng.randint(-rad, rad) for ci in c])
+        frames[k] = crowd
+        frames[k + 1] = [list(c)] + ([[ci + 3 * int(max(sr) / 4.0) + 2 for ci in c]] if rng.random() < 0.5 else [])
+    # uniform power-of-two rescaling of coordinates and search_range (exact in float64; the
+    # monitor's integer costs do not change: Props/C03 scale_invariant).  Small magnitudes expose
+    # absolute tolerances, large ones loss of precision.
+    # (not below 2^-10: HashKDTree.query adds an ABSOLUTE slack of 1e-7 to the search range, which
+    # must stay negligible against the lattice spacing for the candidate relation to be exact)
+    scale_pow = rng.choice([0, 0, 0, 0, 0, 0, -10, -8, 10, 20])
     inp = dict(dim=dim, frames=frames, t0=rng.choice([0, 0, 1, 5, 17, -3, -8]), sr=sr, iso=iso,
+               scale_pow=scale_pow, default_cols=(rng.random() < 0.3),
                memory=memory, strategy="recursive", entry="link_iter", missing=[])
     return inp
 
@@ -155,7 +178,7 @@ def run_impl(inp, extra_kwargs=None, predictor=None):
     if entry == "link_iter":
         def it():
             for k, pts in enumerate(frames):
-                yield t0 + k * ts, np.array(pts, dtype=float).reshape(len(pts), dim)
+                yield t0 + k * ts, np.array(pts, dtype=float).reshape(len(pts), dim) * scale_of(inp)
         gen = tp.link_iter(it(), sr, **kw)
         k = 0
         while True:
@@ -174,7 +197,7 @@ def run_impl(inp, extra_kwargs=None, predictor=None):
 
         def dfs():
             for k, pts in enumerate(frames):
-                a = np.array(pts, dtype=float).reshape(len(pts), dim)
+                a = np.array(pts, dtype=float).reshape(len(pts), dim) * scale_of(inp)
                 df = pd.DataFrame(a, columns=cols)
                 df["frame"] = t0 + k * ts
                 given.append((df, df.copy(deep=True)))
@@ -192,7 +215,7 @@ def run_impl(inp, extra_kwargs=None, predictor=None):
             except SubnetOversizeException:
                 levels.append((t0 + k * ts, frames[k], None))
                 break
-            levels.append((t0 + k * ts, [[int(round(v)) for v in row] for row in df[cols].values],
+            levels.append((t0 + k * ts, [[int(round(v / scale_of(inp))) for v in row] for row in df[cols].values],
                            [int(i) for i in df["particle"].values]))
             k += 1
         # purity: the caller's per-frame tables must be left as they were
@@ -209,20 +232,26 @@ def run_impl(inp, extra_kwargs=None, predictor=None):
             if k in missing:
                 continue
             for p in pts:
-                rows.append(list(map(float, p)) + [t0 + k])
+                rows.append([float(c) * scale_of(inp) for c in p] + [t0 + k])
         if not rows:
             return None
         df = pd.DataFrame(rows, columns=cols + ["frame"])
         df["frame"] = df["frame"].astype(int)
+        lkw = dict(kw)
+        if inp.get("default_cols") and dim >= 2:
+            # rely on link's default pos_columns, with the table listing x before y (before z)
+            df = df[cols[::-1] + ["frame"]]
+        else:
+            lkw["pos_columns"] = cols
         try:
-            out = tp.link(df, sr, pos_columns=cols, **kw)
+            out = tp.link(df, sr, **lkw)
         except SubnetOversizeException:
             return "oversize"
         fr = out["frame"].values
         lo, hi = int(fr.min()), int(fr.max())
         for t in range(lo, hi + 1):
             sub = out[out["frame"] == t]
-            levels.append((t, [[int(round(v)) for v in row] for row in sub[cols].values],
+            levels.append((t, [[int(round(v / scale_of(inp))) for v in row] for row in sub[cols].values],
                            [int(i) for i in sub["particle"].values]))
         return levels
     raise ValueError(entry)
